@@ -50,6 +50,33 @@ theorem code_supported_iff (h : Gen.Fn.polyseed_features_supported_ok = true) (m
   rw [features_supported_tied h _ f (by omega) hf]
   exact C10.supported_iff mask f hm hf
 
+/-- C10, on the code: `make_features` lets only the three user bits through - whatever 32-bit argument `polyseed_create`
+is given, the new seed carries no internal or reserved feature bit -/
+theorem code_make_features_lt (h : Gen.Fn.make_features_ok = true) (u : Nat) (hu : u < 2 ^ 32) :
+    Gen.Fn.make_features u = u % 8 := by
+  rw [make_features_tied h u hu]
+  exact Nat.and_two_pow_sub_one_eq_mod u 3
+
+/-- C10, on the code: `get_features` answers with the user bits of the seed selected by the mask, nothing else -/
+theorem code_get_features (h : Gen.Fn.get_features_ok = true) (f m : Nat) (hf : f < 2 ^ 32) (hm : m < 2 ^ 32) :
+    Gen.Fn.get_features f m = f &&& (m &&& 7) := by
+  rw [get_features_tied h f m hf hm]; rfl
+
+/-- C12, on the code: toggling bit 4 of a 5-bit feature field toggles `is_encrypted`, and no other bit matters -/
+theorem code_is_encrypted_toggle_all :
+    Gen.Fn.is_encrypted_ok = false ∨
+    (List.range 32).all (fun f => (Gen.Fn.is_encrypted (f ^^^ 16) == !Gen.Fn.is_encrypted f) &&
+                                  (Gen.Fn.is_encrypted f == decide (16 ≤ f))) = true := by
+  decide +kernel
+
+theorem code_is_encrypted_toggle (h : Gen.Fn.is_encrypted_ok = true) (f : Nat) (hf : f < 32) :
+    Gen.Fn.is_encrypted (f ^^^ 16) = !Gen.Fn.is_encrypted f ∧ (Gen.Fn.is_encrypted f = true ↔ 16 ≤ f) := by
+  rcases code_is_encrypted_toggle_all with h' | h'
+  · rw [h] at h'; exact absurd h' (by decide)
+  · have := List.all_eq_true.mp h' f (List.mem_range.mpr hf)
+    simp only [Bool.and_eq_true, beq_iff_eq] at this
+    exact ⟨this.1, by rw [this.2]; simp⟩
+
 /-- non-vacuity: concrete values through the model functions the corollaries are proved by -/
 example : EPOCH ≤ 1700000000 ∧ 1700000000 < C11.RANGE_END ∧ birthdayDecode (birthdayEncode 1700000000) = 1698881904 := by decide
 
